@@ -78,7 +78,7 @@ func c10WrapperTable(c *Ctx, a *sketchAnchors, rule string) {
 
 func c10WrapperCopyChange(c *Ctx, a *sketchAnchors, rule string, part string) {
 	// Copy
-	if f := c.P.DeclaredMethod(a.Exact, "Copy"); part == "" && c.mustFunc(rule, f, "(*Exact).Copy") {
+	if f := c.P.DeclaredMethod(a.Exact, "Copy"); (part == "" || part == "Copy") && c.mustFunc(rule, f, "(*Exact).Copy") {
 		paths, _ := exec(c, f, nil, 1)
 		ok := len(paths) == 1
 		found := ""
@@ -93,7 +93,7 @@ func c10WrapperCopyChange(c *Ctx, a *sketchAnchors, rule string, part string) {
 		c.R.check(ok, rule, shortFn(f)+"/result", shortFn(f), c.fpos(f), "result = {inner.Copy(), statistics.Copy()} of the receiver", found)
 	}
 	// ChangeMapping
-	if f := c.P.DeclaredMethod(a.Exact, "ChangeMapping"); c.mustFunc(rule, f, "(*Exact).ChangeMapping") {
+	if f := c.P.DeclaredMethod(a.Exact, "ChangeMapping"); (part == "" || part == "ChangeMapping") && c.mustFunc(rule, f, "(*Exact).ChangeMapping") {
 		paths, _ := exec(c, f, nil, 1)
 		for i, p := range paths {
 			flds := resultFields(p)
